@@ -58,6 +58,9 @@ def call_plan(name, fn, R, arrs, INT_FUNCS, BOOL_FUNCS):
         "from_zarr": lambda: fn(R["store"], spec=R["spec"]),
         "to_zarr": lambda: fn(arrs["a"], R["targets"], compute=False),
         "store": lambda: fn([arrs["a"]], [R["targets"] + ".2"], compute=False),
+        "to_zarr[region,path]": lambda: fn(arrs["a"], R["targets"] + ".r", region=(slice(0, 4), slice(0, 4)), compute=False),
+        "store[region,path]": lambda: fn([arrs["a"]], [R["targets"] + ".r2"], regions=[(slice(0, 4), slice(0, 2))], compute=False),
+        "store[list]": lambda: fn([arrs["a"], arrs["b"]], [R["targets"] + ".l1", R["targets"] + ".l2"], compute=False),
         "map_blocks": lambda: fn(_ident, arrs["a"], dtype=np.float64),
         "map_overlap": lambda: fn(_ident, arrs["a"], dtype=np.float64, depth=1, boundary=0.0),
         "apply_gufunc": lambda: fn(np.sum, "(i)->()", arrs["a"], axis=-1, output_dtypes=np.float64),
@@ -140,6 +143,8 @@ def run(chk):
             if n in SKIP or not callable(obj) or inspect.isclass(obj) or inspect.ismodule(obj):
                 continue
             names.append((label, n, obj))
+    # extra call forms of the store entry points (same callables, other argument shapes)
+    names += [("cubed", "to_zarr[region,path]", cubed.to_zarr), ("cubed", "store[region,path]", cubed.store), ("cubed", "store[list]", cubed.store)]
     for label, n, fn in names:
         with traced.Session() as s:
             spec = s.spec()
